@@ -15,6 +15,8 @@
 //	        virtual sleeps of 1-3 windows), so that a skipped request is taken back after its
 //	        window rolled over and after other requests were counted in the new one; judged by
 //	        the same specification over hit / take-back events in execution order (overlap.go);
+//	subsecond-expiration  Expiration values that are not whole seconds (1 ns ... 2.5 s): bursts
+//	        sent at one instant, judged by clauses that hold for every window length (subsec.go);
 //	sched   2-3 concurrent requests on the injected storage, EVERY schedule (depth-first) over
 //	        the boundaries Storage.Get/Set, MaxFunc, KeyGenerator, handler entry/exit;
 //	walk    3-4 concurrent requests, one seeded random schedule per case.
@@ -50,4 +52,7 @@ func run(e *ev.Env) {
 	e.Cases("walk", e.N(600, 100000), func(c *ev.Case) { runWalk(e, c) })
 	e.Cases("overlap", e.N(2000, 100000), func(c *ev.Case) { runOverlap(e, c) })
 	e.Cases("timed", e.N(3000, 300000), func(c *ev.Case) { runTimed(e, c) })
+	// last: its memory-backend apps (one per expiration value) leave tickers behind
+	subsecCorpus(e)
+	e.Cases("subsecond-expiration", e.N(800, 40000), func(c *ev.Case) { runSubsec(e, c) })
 }
